@@ -2,6 +2,7 @@ import AkVerif.Lemmas.LLCompleteTop
 import AkVerif.Lemmas.LLFactAll
 import AkVerif.Lemmas.LLTable2
 import AkVerif.Lemmas.LLC03
+import AkVerif.Lemmas.LLFuel
 /-!
 # C02 — conflict-free (LL(1)) grammars are parsed exactly
 
@@ -28,6 +29,18 @@ theorem sets_closed {σ : Type} [DecidableEq σ] (G : Prods σ) (terms nulls : L
     Closed (cfgOf terms T suffix) { prods := gramRules G } (setsOf nulls first follow)
       ∧ (setsOf nulls first follow).W start endS = true :=
   model_closed suffix hnd hdisj hN hF hW hT hamb
+
+/-- **The fuel of the three fixpoint loops always suffices**: none of them ever answers `outOfFuel`
+(nullables: `|G| + 2` passes; FIRST and the FOLLOW closure: `|G|·(|terminals|+1) + 2` passes — each
+non-final pass strictly grows a bounded family of duplicate-free sets of terminals). -/
+theorem fuel_enough {σ : Type} [DecidableEq σ] (G : Prods σ) (terms nulls : List σ) (start endS : σ)
+    (hend : endS ∈ terms) :
+    nullables G ≠ .error .outOfFuel ∧ firstSets terms nulls G ≠ .error .outOfFuel ∧
+    ∀ first, firstSets terms nulls G = .ok first →
+      followSets terms nulls first G start endS ≠ .error .outOfFuel :=
+  ⟨nullables_fuel G, firstSets_fuel' terms nulls G,
+   fun first hf => followSets_fuel' terms nulls first G start endS
+     (fun X f hx t ht => (firstSets_terms hf X f hx t ht).1) hend⟩
 
 /-- **LL(1) completeness of the parse loop** (generic): with closed sets and a conflict-free table
 built from them, every derivation tree `d` of the grammar rooted at the start symbol is accepted:
